@@ -265,7 +265,10 @@ class Flow(object):
 
   # ---- queries
   def call_name(self, call):
-    return self.fn.name(call)
+    nm = self.fn.name(call)
+    if nm is None and isinstance(call, ast.Call) and isinstance(call.func, ast.Attribute):
+      nm = "?." + call.func.attr      # method call on a computed receiver
+    return nm
 
   def follows(self, expr, nid, is_source, through=None, want_path=None):
     """True when every root of `expr` is a call satisfying is_source(call, name) (with projection
@@ -662,7 +665,7 @@ def view_list():
   """Views in the order they are tried. VERIF_C_VIEW=<name> (debugging aid) forces a single one."""
   import os
   from . import _h_C_norm as N
-  views = [N.PLAIN, N.CANON, N.INLINED]
+  views = list(N.VIEWS)
   force = os.environ.get("VERIF_C_VIEW")
   if force:
     views = [v for v in views if v.name == force] or views
@@ -700,3 +703,243 @@ def views(run, repo, func, *args, **kw):
   buf.commit()
   if err is not None:
     raise err
+
+
+# ---------------------------------------------------------------------------------------------
+# spelling-independent readers
+
+def calls(fn, cfg=None):
+  """fn.calls() with a name for every method call: when the receiver is not a dotted name the
+  name is '?.<method>' (so endswith(name, '<method>') still recognises the call)."""
+  out = []
+  for (n, c, nm) in fn.calls(cfg):
+    if nm is None and isinstance(c.func, ast.Attribute):
+      nm = "?." + c.func.attr
+    out.append((n, c, nm))
+  return out
+
+
+def resolve(flow, expr, nid=None):
+  """The expression a local name stands for: when `expr` is a Name with exactly one origin that
+  is a call / comprehension / literal taken whole, that expression; else `expr` itself."""
+  seen = 0
+  while isinstance(expr, ast.Name) and seen < 6:
+    seen += 1
+    try:
+      rs = flow.roots(expr, nid if nid is not None else flow.node_of(expr))
+    except AnalysisError:
+      return expr
+    if len(rs) == 1 and rs[0].kind in ("call", "comp", "lit") and not rs[0].path and \
+        isinstance(rs[0].node, ast.AST):
+      expr, nid = rs[0].node, rs[0].nid
+    else:
+      break
+  return expr
+
+
+def split_guard(t, pol):
+  """Atoms [(expr, polarity)] a guard establishes: conjunctions that hold and disjunctions that
+  fail are split, `not` is folded into the polarity."""
+  out = []
+  def go(e, p):
+    if isinstance(e, ast.UnaryOp) and isinstance(e.op, ast.Not):
+      go(e.operand, not p)
+    elif isinstance(e, ast.BoolOp) and ((isinstance(e.op, ast.And) and p) or
+                                        (isinstance(e.op, ast.Or) and not p)):
+      for v in e.values:
+        go(v, p)
+    else:
+      out.append((e, p))
+  go(t, pol)
+  return out
+
+
+def guard_atoms(fnode, target):
+  """guards_of() split into atoms."""
+  out = []
+  for (t, p) in guards_of(fnode, target):
+    out.extend(split_guard(t, p))
+  return out
+
+
+def atom_texts(atoms):
+  return sorted({(text(t), p) for (t, p) in atoms})
+
+
+class Case(object):
+  """One way a function returns (or a name gets its value): the value expression and the atoms
+  that hold when it is chosen."""
+  __slots__ = ("value", "atoms", "stmt")
+
+  def __init__(self, value, atoms, stmt):
+    self.value = value
+    self.atoms = atoms
+    self.stmt = stmt
+
+  def holds(self, txt, pol):
+    return any(text(t) == txt and p == pol for (t, p) in self.atoms)
+
+
+def _split_ifexp(v, atoms, stmt, out):
+  if isinstance(v, ast.IfExp):
+    _split_ifexp(v.body, atoms + split_guard(v.test, True), stmt, out)
+    _split_ifexp(v.orelse, atoms + split_guard(v.test, False), stmt, out)
+  else:
+    out.append(Case(v, atoms, stmt))
+
+
+def return_cases(fnode):
+  """Every (value, atoms) the function may return: one per return statement, conditional
+  expressions split, with the atoms of the enclosing / preceding guards."""
+  out = []
+  for s in walk_no_nested(fnode):
+    if isinstance(s, ast.Return):
+      atoms = guard_atoms(fnode, s)
+      _split_ifexp(s.value, atoms, s, out)
+  return out
+
+
+def value_cases(fn, flow, expr, nid=None, depth=0):
+  """Cases of the value of `expr`: conditional expressions split; a local name is followed to
+  each reaching plain assignment (with the guards of that assignment when there are several);
+  any other binding (loop target, parameter, unpacking) is a case of its own: the name itself."""
+  out = []
+  if nid is None:
+    nid = flow.node_of(expr)
+  def go(e, atoms, at, d):
+    if isinstance(e, ast.IfExp):
+      go(e.body, atoms + split_guard(e.test, True), at, d)
+      go(e.orelse, atoms + split_guard(e.test, False), at, d)
+      return
+    if isinstance(e, ast.Name) and d < 6 and flow._comp_binding(e) is None and \
+        e.id in flow.defs:
+      rdefs, from_entry = flow.reaching(e.id, at)
+      many = len(rdefs) + (1 if from_entry else 0) > 1
+      if from_entry:
+        out.append(Case(e, atoms, None))
+      for dn in sorted(rdefs):
+        s = flow.cfg.nodes[dn].stmt
+        g = guard_atoms(fn.node, s) if many and flow.cfg.nodes[dn].kind == "stmt" else []
+        if isinstance(s, ast.Assign) and len(s.targets) == 1 and \
+            isinstance(s.targets[0], ast.Name) and s.targets[0].id == e.id:
+          go(s.value, atoms + g, dn, d + 1)
+        else:
+          out.append(Case(e, atoms + g, s))
+      return
+    out.append(Case(e, atoms, None))
+  go(expr, [], nid, depth)
+  return out
+
+
+class Elem(object):
+  """One producer of elements of a list / set: the element expression, the generators
+  [(target, iter)] it runs under, and the conditions under which it is added."""
+  __slots__ = ("elt", "gens", "conds", "nid", "site")
+
+  def __init__(self, elt, gens, conds, nid, site):
+    self.elt = elt
+    self.gens = gens
+    self.conds = conds
+    self.nid = nid
+    self.site = site
+
+
+def _enclosing_loops(fnode, target, stop_block_of=None):
+  loops = []
+  def go(stmts, acc):
+    for s in stmts:
+      if s is target or any(x is target for x in ast.walk(s)):
+        if s is target:
+          return acc
+        if isinstance(s, (ast.FunctionDef, ast.AsyncFunctionDef, ast.ClassDef)):
+          return acc
+        nacc = acc + [s] if isinstance(s, (ast.For, ast.While)) else acc
+        for fld in ("body", "orelse", "finalbody"):
+          b = getattr(s, fld, None)
+          if isinstance(b, list) and b and isinstance(b[0], ast.stmt):
+            if any(x is target for y in b for x in ast.walk(y)):
+              return go(b, nacc if fld == "body" else acc)
+        for h in getattr(s, "handlers", []) or []:
+          if any(x is target for y in h.body for x in ast.walk(y)):
+            return go(h.body, acc)
+        return acc
+    return acc
+  return go(fnode.body, loops)
+
+
+def elements(fn, flow, expr, nid=None):
+  """[Elem] describing every way an element gets into the list/set `expr` denotes, whether it is
+  written as a comprehension, a literal, or an empty container filled by append/add in loops.
+  None when the construction is not understood."""
+  if nid is None:
+    nid = flow.node_of(expr)
+  out = []
+  rs = flow.roots(expr, nid)
+  if not rs:
+    return None
+  for r in rs:
+    if r.path:
+      return None
+    if r.kind == "comp" and isinstance(r.node, (ast.ListComp, ast.SetComp, ast.GeneratorExp)):
+      gens = [(g.target, g.iter) for g in r.node.generators]
+      conds = [(c, True) for g in r.node.generators for c in g.ifs]
+      out.append(Elem(r.node.elt, gens, conds, r.nid, r.node))
+    elif r.kind == "lit" and isinstance(r.node, (ast.List, ast.Tuple, ast.Set)):
+      for e in r.node.elts:
+        out.append(Elem(e, [], [], r.nid, r.node))
+    elif r.kind == "call" and dotted(r.node.func) in ("list", "set") and not r.node.args:
+      pass
+    else:
+      return None
+  owners = set()
+  for r in rs:
+    if r.kind in ("lit", "call") and r.nid is not None:
+      st = flow.cfg.nodes[r.nid].stmt
+      if isinstance(st, ast.Assign) and st.value is r.node and len(st.targets) == 1 and \
+          isinstance(st.targets[0], ast.Name):
+        owners.add((st.targets[0].id, r.nid))
+      elif isinstance(r.node, ast.Call) or (isinstance(r.node, (ast.List, ast.Set)) and
+                                            not r.node.elts):
+        pass        # an anonymous container: nothing can be appended to it by name
+  for (X, defn) in sorted(owners):
+    for nmut in sorted(flow.du.muts.get(X, set())):
+      if nmut not in flow.cfg.reach_after({defn}):
+        continue            # mutates an earlier binding of the name
+      node = flow.cfg.nodes[nmut]
+      found = False
+      for c in [x for e in node.exprs for x in walk_no_nested(e) if isinstance(x, ast.Call)]:
+        if isinstance(c.func, ast.Attribute) and isinstance(c.func.value, ast.Name) and \
+            c.func.value.id == X:
+          if c.func.attr in ("append", "add") and len(c.args) == 1:
+            found = True
+            if nid not in flow.cfg.reach_after({nmut}):
+              continue        # happens after the use
+            stmt = node.stmt
+            loops = _enclosing_loops(fn.node, stmt)
+            # loops that also enclose the use of the list are not generators of its elements
+            ustmt = flow.cfg.nodes[nid].stmt
+            use_loops = {id(l) for l in _enclosing_loops(fn.node, ustmt)} if ustmt is not None \
+                else set()
+            loops = [l for l in loops if id(l) not in use_loops]
+            if any(isinstance(l, ast.While) for l in loops):
+              return None
+            if loops:
+              conds = [(t, p) for (t, p) in guards_of(fn.node, stmt)
+                       if _synth_within(t, loops[0])]
+              if any(isinstance(x, ast.Break) for x in ast.walk(loops[0])):
+                conds.append((ast.Constant(value="<break in loop>"), True))
+            else:
+              conds = list(guards_of(fn.node, stmt))
+            out.append(Elem(c.args[0], [(l.target, l.iter) for l in loops], conds, nmut, c))
+          else:
+            return None
+      if not found:
+        return None
+  return out
+
+
+def _synth_within(t, container):
+  """A synthesised conjunction (guards_of builds them for nested early exits) belongs to
+  `container` when one of its parts does."""
+  ids = {id(x) for x in ast.walk(container) if isinstance(x, ast.expr)}
+  return any(id(y) in ids for y in ast.walk(t) if isinstance(y, ast.expr))
